@@ -50,8 +50,9 @@ def explore(chk, harness, count, sizes, maxlen, tag):
     recs = gen(rng, count, sizes, maxlen)
     optexts = {}
     for r in recs:
-        optexts[r["id"]] = r["hist"]
-        optexts[r["fid"]] = r["fresh"]
+        # history and fresh object in ONE op text: they must run in the same harness process (the transform plans of
+        # a process are reused from its in-memory wisdom; two processes may pick plans that differ in the last bit)
+        optexts[r["id"]] = r["hist"] + r["fresh"]
     A, B, mism, drift, san = corr.run_correspondence(chk, harness, optexts, tag)
     fails = [(r, f) for r in recs for f in [oracle(r, A)] if f]
     return recs, optexts, mism, drift, san, fails
@@ -64,7 +65,7 @@ def run(chk):
     count, maxlen = (60, 8) if quick else (1500, 20)
     sizes = [4, 8, 16] if quick else [4, 8, 16, 32]
     recs, optexts, mism, drift, san, fails = explore(chk, harness, count, sizes, maxlen, "main")
-    chk.cov["evaluations"] = len(optexts)
+    chk.cov["evaluations"] = 2 * len(optexts)
     chk.cov["distinct_nontrivial"] = len({r["hist"] for r in recs if len(r["seq"]) > 2})
     chk.cov["rule"] = ("histories of 1..%d (profile, op) pairs over {wakePotential, padBunchProfiles, updateCSR with/"
                        "without cutoff}, 2-4 profile sets, transform lengths incl. composite and prime, 1-3 bunches with "
@@ -75,7 +76,7 @@ def run(chk):
         for key in ("nmax", "nb"):
             d["%s=%s" % (key, r[key])] = d.get("%s=%s" % (key, r[key]), 0) + 1
     chk.cov["distribution"] = d
-    chk.cov["correspondence"] = {"cases": len(optexts), "mismatches": len(mism), "within_tolerance_not_bitwise": drift,
+    chk.cov["correspondence"] = {"cases": 2 * len(optexts), "mismatches": len(mism), "within_tolerance_not_bitwise": drift,
                                  "note": "model = binary64 naive DFT; padded buffers compared bitwise, transforms within 2e-5 of line scale"}
     chk.cov["samples"] = [{"history": recs[0]["seq"], "case": recs[0]["hist"][:200]},
                           {"theorem": "Inovesa.Props.C18.history_independent: for ALL histories, profiles, transforms t with ClobOK: observables of op after history = observables of op on a fresh object"}]
